@@ -16,7 +16,14 @@ from .. import tokenize as T
 PROP = "C11"
 
 
-def render(p, scale=0, pool=None):
+def render(p, scale=0, pool=None, cut=None, incpath=None):
+    """cut = (i, j), 1-based: statements i..j-1 are written to incpath and replaced by one .include line"""
+    if cut:
+        lines = render(p).split("\n")[1:-1]            # one line per statement, behind the .msp430 line
+        i, j = cut
+        with open(incpath, "w") as fh:
+            fh.write("".join(l + "\n" for l in lines[i - 1:j - 1]))
+        return "\n".join([".msp430"] + lines[:i - 1] + ['.include "%s"' % incpath] + lines[j - 1:]) + "\n"
     pad = ("_" + "x" * 200) if scale else ""
     out = [".msp430"]
     if scale:
@@ -51,6 +58,29 @@ def render(p, scale=0, pool=None):
     return "\n".join(out) + "\n"
 
 
+def exe_case(a):
+    """the naken_asm executable on a source file (the include cases: an include file read through the in-memory source of
+    the in-process harness is not what a user runs); returns a record shaped like the harness's"""
+    import subprocess
+    exe, fdir, cid, src = a
+    base = os.path.join(fdir, cid)
+    with open(base + ".asm", "w") as fh:
+        fh.write(src)
+    rec = {"case": cid, "r1": 0, "r2": 0, "img": [], "files": {"elf": {"path": base + ".elf"}}}
+    for typ in ("bin", "elf"):
+        try:
+            q = subprocess.run([exe, "-type", typ, "-o", base + "." + typ, base + ".asm"], stdout=subprocess.PIPE, stderr=subprocess.STDOUT, timeout=20)
+        except subprocess.TimeoutExpired:
+            return {"case": cid, "died": 1, "timeout": 1, "sig": 0}
+        if q.returncode < 0:
+            return {"case": cid, "died": 1, "sig": -q.returncode}
+        if q.returncode != 0 or not os.path.exists(base + "." + typ):
+            rec["r1"] = 1
+            return rec
+    rec["img"] = [[0, open(base + ".bin", "rb").read().hex()]]
+    return rec
+
+
 def observe(rec, path, p, scale, pool=None):
     if rec.get("died"):
         return {"k": "crash", "why": rec.get("san") or "signal %s" % rec.get("sig")}
@@ -79,7 +109,7 @@ def run(tier, seed):
     rnd = random.Random(seed)
     vdir = C.ensure_build("rel")
     rd = chk.rundir
-    g = C.tlc("GenSym", "gen_Sym_%s.cfg" % tier, rd, workers=8, heap="8g", prefixes=("CASE ", "POOL "))
+    g = C.tlc("GenSym", "gen_Sym_%s.cfg" % tier, rd, workers=8, heap="8g", prefixes=("CASE ", "POOL ", "INC "))
     chk.add_tlc(g)
     progs = C.parse_payload(g.lines, "CASE ")
     pp = C.parse_payload(g.lines, "POOL ")
@@ -112,13 +142,49 @@ def run(tier, seed):
             cid = "z%d.%d.%d" % (j, f, l)
             pmeta[cid] = (j, (f, l))
             cases.append((cid, "types=elf prefix=%s/ imgmax=4000" % fdir, render(p, 0, (f, l))))
+    # include cuts (GenSym!Cuts): a part of the program moved into an include file, the reference is that of the program
+    incs = C.parse_payload(g.lines, "INC ")
+    if len(incs) < 5000:
+        raise C.InfraError("only %d programs with include cuts" % len(incs))
+    incs.sort(key=lambda r: json.dumps(r["prog"], sort_keys=True))
+    imeta, icases = {}, []
+    for q, r in enumerate(incs if tier == "thorough" else rnd.sample(incs, 2500)):
+        p = r["prog"]
+        opens = [k for k, st in enumerate(p, 1) if st["k"] in ("scope", "func")]
+        closes = [k for k, st in enumerate(p, 1) if st["k"] in ("ends", "endf")]
+        inside = [c for c in r["cuts"] if opens and closes and opens[0] < c[0] and c[1] <= closes[0]]
+        # one cut inside the block (an empty one every other time), one anywhere
+        empties = [c for c in inside if c[0] == c[1]]
+        picks = [rnd.choice(empties if (q % 2 == 0 and empties) else inside)] if inside else []
+        picks.append(rnd.choice(r["cuts"]))
+        if tier == "thorough":
+            picks = inside + [c for c in r["cuts"] if c not in inside][:3]
+        for c in picks:
+            cid = "i%d.%d.%d" % (q, c[0], c[1])
+            if cid in imeta:
+                continue
+            imeta[cid] = (p, c)
+            icases.append((cid, "", render(p, cut=tuple(c), incpath=os.path.join(fdir, cid + ".inc"))))
     obs = C.conform_parallel(vdir, "file", cases, rd, "c11", 20, nproc=C.NCPU)
+    from concurrent.futures import ThreadPoolExecutor
+    with ThreadPoolExecutor(C.NCPU) as ex:
+        obs += list(ex.map(exe_case, [(os.path.join(vdir, "naken_asm"), fdir, c[0], c[2]) for c in icases]))
+    cases += icases
     byid = {o["case"]: o for o in obs}
+    c_src = {c[0]: c[2] for c in cases if c[0] in imeta}
     events = []
     for c in cases:
         o = byid.get(c[0])
         if o is None:
             raise C.InfraError("missing " + c[0])
+        if c[0] in imeta:
+            p, cut = imeta[c[0]]
+            ob = observe(o, None, p, 0)
+            if ob["k"] in ("crash", "badelf"):
+                chk.report("sym:%s:include:%s" % (ob["k"], json.dumps(p)[:120]), "%s on a program with an include cut %s" % (ob, cut), dict(source=c[2], observed=ob))
+            else:
+                events.append({"id": c[0], "prog": p, "obs": ob})
+            continue
         if c[0] in pmeta:
             j, pool = pmeta[c[0]]
             ob = observe(o, None, poolprogs[j], 0, pool)
@@ -156,7 +222,18 @@ def run(tier, seed):
             chk.report("sym:pool:%s:%s" % (bad[cid]["why"].split(" ")[0], json.dumps(poolprogs[j], separators=(",", ":"))[:140]),
                        "%s (after %d fillers and one of %d characters)\n%s" % (bad[cid]["why"], pool[0], pool[1] + 7, render(poolprogs[j])),
                        dict(source=render(poolprogs[j], 0, pool)[-1500:], fillers=pool[0], adjust=pool[1], why=bad[cid]["why"]))
-    fails = sorted((cid for cid in bad if cid not in canaries and cid not in pmeta), key=lambda c: len(progs[meta[c][0]]))
+    seen_inc = set()
+    for cid in sorted(bad):
+        if cid in imeta:
+            p, cut = imeta[cid]
+            where = "inside the block" if any(st["k"] in ("scope", "func") for st in p[:cut[0] - 1]) and any(st["k"] in ("ends", "endf") for st in p[cut[1] - 1:]) else "outside a block"
+            key = "sym:include:%s:%s:%s" % (bad[cid]["why"].split(" ")[0], where, "empty file" if cut[0] == cut[1] else "statements")
+            if key in seen_inc:
+                continue
+            seen_inc.add(key)
+            chk.report(key, "%s: statements %d..%d of this program are in an include file (%s)\n%s" % (bad[cid]["why"], cut[0], cut[1] - 1, where, render(p)),
+                       dict(source=c_src[cid], include=open(os.path.join(fdir, cid + ".inc")).read(), why=bad[cid]["why"]))
+    fails = sorted((cid for cid in bad if cid not in canaries and cid not in pmeta and cid not in imeta), key=lambda c: len(progs[meta[c][0]]))
     minimal = []
     for cid in fails:
         i, scale = meta[cid]
@@ -179,7 +256,7 @@ def run(tier, seed):
         rule="TLC enumerates every program of up to 4 (thorough 5) statements over 13 statement kinds; quick runs all of length <= 3 "
              "and 12,000 seeded longer ones; a seeded subset is rendered with 200-character names after 400 filler labels (several "
              "symbol pools); non-trivial = has a use and a scope/function; distinct by abstract program",
-        traces_validated_against_impl=len(events) - len(canaries), scaled=nscaled, pool_sweep=len(pmeta),
+        traces_validated_against_impl=len(events) - len(canaries), scaled=nscaled, pool_sweep=len(pmeta), include_cuts=len(imeta),
         canaries=dict(injected=len(canaries), rejected=len(canaries)), exhaustive=(tier == "thorough")))
     chk.samples = [render(p) for p in rnd.sample(progs, 3)]
     chk.assumptions = [".set mixed with labels of the same name, a .set used before its first assignment and .set inside a scope are "
